@@ -145,6 +145,31 @@ def trace_cases(gw, scratch):
     return out
 
 
+def literal_cases(gw, scratch):
+    """the code that runs remotely is exactly the given text: a multi-line string literal with whitespace-only lines, trailing blanks and
+    tabs inside a module, a function and a source string comes back character by character"""
+    out = []
+    lit = "line one\n    \n\t\nindented  \n  \n    last"
+    mpath = os.path.join(scratch, "litmod.py")
+    open(mpath, "w").write('TEXT = """' + lit + '"""\nif __name__ == "__channelexec__":\n    channel.send(TEXT)\n')
+    mmod = load_module(mpath, "litmod")
+    fpath = os.path.join(scratch, "litfn.py")
+    open(fpath, "w").write('def f(channel):\n    text = """' + lit + '"""\n    channel.send(text)\n')
+    fmod = load_module(fpath, "litfn")
+    for target in (mmod, fmod.f):
+        c = {"k": "literal", "ok": False, "form": "module" if target is mmod else "function"}
+        try:
+            ch = gw.remote_exec(target)
+            got = _txt(ch.receive(10))
+            ch.waitclose(10)
+            c["ok"] = got == lit
+            c["got"] = repr(got)[:120]
+        except Exception as e:  # noqa: BLE001
+            c["err"] = type(e).__name__
+        out.append(c)
+    return out
+
+
 def _txt(x):
     """text items arrive as bytes on a gateway reconfigured with py3str_as_py2str"""
     return x.decode() if isinstance(x, bytes) else x
@@ -319,6 +344,7 @@ def run(ctx):
             cases += trace_cases(gw, ctx.scratch)
             cases += close_cases(gw)
             cases += repeat_cases(gw, ctx.scratch)
+            cases += literal_cases(gw, ctx.scratch)
             cases += stdio_cases(gw, rng, ctx.quick)
         finally:
             group.terminate(timeout=3)
@@ -348,13 +374,14 @@ def run(ctx):
         ctx.note("gevent not installed: stdio cases not repeated on a gevent worker")
     fdres = fd_part(ctx)
     slim = [{k: v for k, v in c.items() if k in ("k", "shape", "res", "ran", "kwargs_equal", "name_ok", "channel_bound", "want_file", "want_line",
-                                                 "once", "closed_after", "ok", "alive", "refused", "closed_at_end", "open_before_end")} for c in cases]
+                                                 "once", "closed_after", "ok", "alive", "refused", "closed_at_end", "open_before_end", "form")} for c in cases]
     verdicts = batch.judge("RemoteExecCases", slim, ctx.scratch)
     hist = {}
     for c, vd in zip(cases, verdicts):
         hist[vd] = hist.get(vd, 0) + 1
         if vd != "ok":
-            ctx.violation(f"{vd}: {json.dumps(c, default=str)[:300]}", c)
+            ctx.violation(f"{vd}: {json.dumps(c, default=str)[:300]}", c,
+                          key="dedent-blanks-whitespace-only-lines" if vd == "C06.function-source-altered-by-dedent" else None)
     ctx.coverage.update({
         "states": r.distinct, "transitions": r.generated, "traces_validated_against_impl": len(cases),
         "evaluations": len(cases), "distinct_nontrivial": sum(1 for c in cases if c["k"] != "shape" or c["shape"]["kind"] == "function"),
